@@ -92,6 +92,7 @@ class Run:
         self._pre = self._prev = None
         self.sched_digests = set()
         self.thread_yields = []
+        self.sched_choices = {}       # step index -> decisions taken
         self.metadata_games = False
         self.build_no = 0
         for m in sc.get('init', []):
@@ -296,6 +297,7 @@ class Run:
                 'builds_with_threads', 0) + (1 if sched.max_threads > 1
                                              else 0)
             self.sched_digests.add(digest(sched.choices, 10))
+            self.sched_choices[self.build_no] = list(sched.choices)
             self.thread_yields.append([t.n_yields for t in sched.threads])
         out.order = list(it.order)
         out.n_opp = it.opp
@@ -1316,6 +1318,7 @@ def run_scenario(sc, opts=None):
         res['runs'] = 1 + getattr(run, 'fault_runs', 0)
         res['sched_digests'] = sorted(run.sched_digests)
         res['thread_yields'] = run.thread_yields
+        res['sched_choices'] = run.sched_choices
         res['stats'] = run.stats
         return res
     except Exception:
